@@ -28,7 +28,9 @@ RULE = (
     "final placement into (a subset of) the remotes raises EIO in push round 1, optionally ids whose placement "
     "into the caches fails in a first fetch round. Flow: index.build -> md5 -> save, collect(push=True) + push "
     "twice (faulty, clean), caches emptied, collect + fetch (optionally faulty, then clean), compare(None, idx) + "
-    "apply from the caches. Oracle (hashlib, own .dir serialiser, os.walk listings, the independent resolver): "
+    "apply from the caches. For about half of the scenarios the push half is additionally repeated on fresh "
+    "remotes once per object that has to move (up to 10), with exactly that object failing: exhaustive over "
+    "single upload failures per scenario, sampled over larger subsets. Oracle (hashlib, own .dir serialiser, os.walk listings, the independent resolver): "
     "save puts every object into exactly the cache its key resolves to; per round pushed + failed = number of "
     "requested objects present in the cache and absent from the remote beforehand, pushed = those that are "
     "present afterwards, failed = those still absent; nothing else appears in any remote; after the clean "
@@ -263,24 +265,24 @@ def flow_cases(draw):  # noqa: C901, PLR0912, PLR0915
     # -- covered by kind == "dir"; keep members here.
 
     # ---- storage prefixes ---------------------------------------------------------------------
-    pcands = [[]]
+    tk, other = [], []
     for k in tracked:
         for cand in (k, k[:1]):
-            if cand not in pcands:
-                pcands.append(cand)
+            if cand not in tk:
+                tk.append(cand)
     for c in cands:
-        if c[:1] not in pcands:
-            pcands.append(c[:1])
-    npre = draw(st.sampled_from([1, 2, 2, 2, 3, 3, 3, 4]))
-    picks = draw(st.lists(st.integers(0, len(pcands) - 1), min_size=npre, max_size=npre, unique=True)
-                 if len(pcands) >= npre else st.just(list(range(len(pcands)))))
-    pkeys = [pcands[i] for i in picks]
-    if draw(st.integers(0, 2)) > 0 and [] not in pkeys:
-        pkeys[0] = []
+        if c[:1] not in tk and c[:1] not in other:
+            other.append(c[:1])
+    n1 = draw(st.integers(1, min(3, len(tk))))
+    pkeys = [tk[i] for i in draw(st.lists(st.integers(0, len(tk) - 1), min_size=n1, max_size=n1, unique=True))]
+    if other and draw(st.integers(0, 3)) == 0:
+        pkeys.append(other[draw(st.integers(0, len(other) - 1))])  # a prefix that governs no tracked entry
+    if draw(st.booleans()):
+        pkeys.append([])
     # no prefix strictly inside a tracked entry (cannot happen: candidates are tracked keys or shorter)
     nc = draw(st.sampled_from([1, 2, 2, 3]))
     nr = draw(st.sampled_from([1, 2, 2, 2, 3, 3]))
-    cache_of_remote = [draw(st.integers(0, nc - 1)) for _ in range(nr)]
+    cache_of_remote = [draw(st.sampled_from([r % nc, r % nc, *range(nc)])) for r in range(nr)]
     prefixes = []
     for k in sorted(pkeys, key=len):
         inh = resolve(prefixes, k)[1]
@@ -351,7 +353,7 @@ def _snap(roots, where, viols):
     for i, root in enumerate(roots):
         problems, contents = ref.audit_local_store(root)
         for kind, oid, why in problems[:1]:
-            viols.append(Viol(f"store-{kind}:{where.split(':')[0]}", f"{where}, store {os.path.basename(root)}: {why}"))
+            viols.append(Viol(f"store-{kind}", f"{where}, store {os.path.basename(root)}: {why}"))
         out[i] = contents
     return out
 
@@ -576,10 +578,10 @@ def run_flow(case, ctx):  # noqa: C901, PLR0912, PLR0915
         if viols:
             return Result(viols, False, ["push-violation"], {})
         # ---- enumeration: every single object that has to move fails once (fresh remotes each time) ---
-        enumerated = 0
+        enumerated = efaults = 0
         if case.get("enum"):
             for n, oid in enumerate(P["moving"][:ENUM_CAP]):
-                push_phase(f"e{n}", {oid}, None, f"push-e{n}")
+                efaults += len(push_phase(f"e{n}", {oid}, None, f"push-e{n}")["inj"].faulted)
                 enumerated += 1
                 if viols:
                     return Result(viols, False, ["push-violation", "enumerated-single-fault"], {})
@@ -745,7 +747,7 @@ def run_flow(case, ctx):  # noqa: C901, PLR0912, PLR0915
             cl.append("round2-nothing-to-move")
         nontrivial = bool(hit) or (len(live_r) >= 2 and has_dir)
         return Result(viols, nontrivial, cl, {
-            "faults_injected": len(inj.faulted) + (len(finj.faulted) if finj else 0),
+            "faults_injected": len(inj.faulted) + (len(finj.faulted) if finj else 0) + efaults,
             "objects_pushed": P["pushed"],
             "single_faults_enumerated": enumerated,
             "objects_fetched": fetched2 + (fetched1 if case["ffail"] else 0),
@@ -760,9 +762,9 @@ def run_case(case, ctx):
 
 
 def run(ctx):
-    ok = ctx.run_given(pure_cases(), run_case, ctx.n(quick=400, thorough=6000))
+    ok = ctx.run_given(pure_cases(), run_case, ctx.n(quick=300, thorough=4000))
     if ok:
-        ctx.run_given(flow_cases(), run_case, ctx.n(quick=70, thorough=900))
+        ctx.run_given(flow_cases(), run_case, ctx.n(quick=70, thorough=700))
 
 
 def replay(case, ctx):
